@@ -278,7 +278,33 @@ def check_key_serialisation(chk):
         raise Unrecognised('C14.K', f'only {n} key computations found in data.py', dmod.rel)
 
 
+def check_roundtrip_sim(chk, rule='C14.R'):
+    """jsonStringify / jsonParse evaluated (E6l) on concrete JSON values: valid JSON denoting the value, sorted keys, no fraction on integral numbers, no collisions, parse inverts"""
+    from .. import libsim
+    from ..lib import library_functions
+    libfuncs = {f.name: f for f in library_functions(chk.repo, rule)}
+    n, problems = libsim.run_json_roundtrip(chk.repo, libfuncs, chk.tier, rule)
+    vmod = chk.repo.module('value')
+    if problems:
+        kinds = {}
+        for k, msg in problems:
+            kinds.setdefault(k, []).append(msg)
+        for k, msgs in kinds.items():
+            where = ('jsonParse', libfuncs['jsonParse']) if k == 'parse' else ('value_json', None)
+            mod = where[1].mod if where[1] else vmod
+            fn = where[1].pyname if where[1] else 'value_json'
+            chk.bad(rule, mod, fn, f'{k}: {msgs[0][:100]}', f'evaluation on {n} calls: {msgs[0][:400]} ({len(msgs)} deviations of this kind)',
+                    node=(where[1].func if where[1] else vmod.funcs.get('value_json')))
+        return False
+    chk.ok(rule, f'{n} evaluated calls: jsonStringify (no indent, indent 2, indent 3.0) of JSON values whose strings and keys contain . 0 , ] }} " \\ / newline, control and '
+           f'non-BMP characters, trailing backslashes and newlines, gives valid JSON denoting exactly the value with sorted keys and no fraction on integral numbers; no two '
+           f'different values share a text; jsonParse maps the text back', count=n)
+    return True
+
+
 def run(chk):
+    chk.rule('C14.R', 'jsonParse(jsonStringify(v)) = v, valid JSON, sorted keys, integral numbers without fraction: evaluation on concrete JSON values (E6l)', floor=500)
+    chk.guard('C14.R', check_roundtrip_sim, chk)
     chk.rule('C14.E', 'encoder configuration; jsonParse / jsonStringify wiring', floor=5)
     chk.rule('C14.S', 'substitutions on encoder output cannot change string tokens (token-aware by automata equivalence, or unable to match inside a token)', floor=1)
     chk.rule('C14.N', 'number clean-up follow set = all structural followers of a number', floor=6)
